@@ -158,7 +158,7 @@ func TestHeightVoteSet(t *testing.T) {
 				var err error
 				if callGuard(t, hist.text, func() { added, err = hvs.AddVote(v, peer) }) {
 					added, err = false, fmt.Errorf("panic (known finding)")
-					classes["known-panic-short-signature"] = true
+					classes["known-panic"] = true
 				}
 				if added && vd == vInvalid {
 					ev.Violation(t, keyInvalidAdded, hist.text(), "HeightVoteSet.AddVote added %s, which is not a valid vote of any step of this height, err=%v", desc, err)
